@@ -36,9 +36,7 @@ theorem C16_proper_mergeable (g : Graph) (node : Node) :
 theorem C16_proper_lattice (input : Str) (d : Dict) :
     fromInput tables input d .proper = fromInput tables input d .normal := by
   unfold fromInput
-  split
-  · rfl
-  · simp only [mergeAncillaries, C16_proper_mergeable]
+  simp only [mergeAncillaries, C16_proper_mergeable]
 
 /-- Edge scores do not depend on whether the context is proper or normal. -/
 theorem C16_proper_edge (prev cur : Node) :
